@@ -1,15 +1,29 @@
 /* C13 round 3: the LONG_DOUBLE flavour of print_f (DOUBLE = long double, modfl / fmodl / powl): a third
-   compilation of igris/util/printf_impl.c with the macro the source tests, public entry renamed. */
+   compilation of igris/util/printf_impl.c with the macro the source tests, public entry renamed.
+   Round 3b: LONG_DOUBLE, DOUBLE and PRINT_F_BUFF_SZ are internal names - optional: when the source no longer has
+   the switch (or calls it differently) c13_ld_const(4) is not sizeof(long double) and the harness reports the
+   flavour as absent (a tag) instead of judging a double engine by long double standards. */
 #define LONG_DOUBLE 1
 #define __printf c13_ld_printf
 #include <igris/util/printf_impl.c>
 #undef __printf
+#define C13_UNKNOWN (-1000000L)
 long c13_ld_const(int i)
 {
     switch (i)
     {
-    case 0: return PRINT_F_BUFF_SZ;
-    case 4: return (long)sizeof(DOUBLE);
+    case 0:
+#ifdef PRINT_F_BUFF_SZ
+        return PRINT_F_BUFF_SZ;
+#else
+        return C13_UNKNOWN;
+#endif
+    case 4:
+#ifdef DOUBLE
+        return (long)sizeof(DOUBLE);
+#else
+        return C13_UNKNOWN;
+#endif
     }
-    return -1;
+    return C13_UNKNOWN;
 }
